@@ -569,7 +569,7 @@ func (j *judge) progForms() {
 				j.evals++
 				want := -1
 				for n2, k := range pl.ks {
-					if vu.StructEq(a, vals[k]) {
+					if structEq(a, vals[k]) {
 						want = n2
 						break
 					}
@@ -604,7 +604,7 @@ func (j *judge) progForms() {
 			for n2, k := range pl.ks {
 				j.evals++
 				b := vals[k]
-				same := vu.StructEq(a, b)
+				same := structEq(a, b)
 				want := b2s(same != pl.form.negated)
 				if tag == "if" {
 					want = map[bool]string{true: "1", false: "0"}[same]
